@@ -3,7 +3,7 @@ Driver for C20.  One request line = one (schema, instance, path list) case, spac
 prefix notation (strings that may contain spaces are `=` followed by dot-separated code points,
 `~` is "none"):
 
-  line    := "S" schema "T" forest "Q" nq query*
+  line    := ("S" | "SU") schema "T" forest "Q" nq query*      (SU = schema not built: every element xs:anyType)
   schema  := nct ctype* nel elemdecl* nty (name ty)*
   ctype   := "C" name? content np particle* na attrdecl*
   content := "cs" stype | "ce" | "cm" | "cz"
@@ -276,20 +276,20 @@ def elemText (a : Ann) (kids : Forest Ann) : String :=
   | none => (a.xsdElem.bind (·.default)).getD ""
 
 /-- records for a whole annotated forest (`start` = index of its first node) -/
-def report (s : Schema) : Nat → Forest Ann → List String
+def report (fv : Bool) (s : Schema) : Nat → Forest Ann → List String
   | _, .nil => []
-  | start, .leaf _ _ r => report s (start + 1) r
+  | start, .leaf _ _ r => report fv s (start + 1) r
   | start, .elem a _ ats _ kids rest =>
     let m := elemTypedValue s a ats kids
     let sp := specElemValue s a ats kids
     let ct := a.xsdType.bind (contentType s)
     let me := s!"n{start}|T={(a.typeName s).getD "~"}|E={if a.xsdElem.isSome then 1 else 0}|C={kindChar s a}|M={showTV m}|S={showSpec sp}|K={flagsFor ct (elemText a kids)}|IM={instBits (tvAtoms m)}|IS={instBits (sp.getD [])}"
-    let attrs := (attrNodes s a ats).zipIdx.map fun (an, k) =>
+    let attrs := (attrNodesV fv s a ats).zipIdx.map fun (an, k) =>
       let am := attrTypedValue an
       let asp := specAttrValue an.type an.value
       s!"a{start}.{k}|N={an.name}|T={an.typeName.getD "~"}|D={if an.defaulted then 1 else 0}|M={showTV am}|S={showSpec asp}|K={flagsFor an.type an.value}|IM={instBits (tvAtoms am)}|IS={instBits (asp.getD [])}"
-    (me :: attrs) ++ report s (start + 1 + ats.length) kids ++
-      report s (start + 1 + ats.length + fsize kids) rest
+    (me :: attrs) ++ report fv s (start + 1 + ats.length) kids ++
+      report fv s (start + 1 + ats.length + fsize kids) rest
 
 def allTypedB : Forest Ann → Bool
   | .nil => true
@@ -314,8 +314,9 @@ def sameAnn (s : Schema) : Forest Ann → Forest Ann → Bool
 
 def answer (line : String) : String :=
   let toks := (line.splitOn " ").filter (· ≠ "")
+  let fv := toks.head? != some "SU"          -- "SU": the schema is not built (not fully valid)
   match toks with
-  | "S" :: r =>
+  | _ :: r =>
     match pSchema r with
     | none => "bad-schema"
     | some (s, r) =>
@@ -329,10 +330,10 @@ def answer (line : String) : String :=
             match pCounted pQuery r with
             | none => "bad-query"
             | some (qs, _) =>
-              let ann := applySchema s t
-              let recs := report s 0 ann
+              let ann := applySchemaV fv s t
+              let recs := report fv s 0 ann
               let absd := absentDefault s ann
-              let c := s!"c|{if sameAnn s ann (applyF s none t) then 1 else 0}|{if allTypedB ann then 1 else 0}|{if absd then 1 else 0}"
+              let c := s!"c|{if !fv || sameAnn s ann (applyF s none t) then 1 else 0}|{if allTypedB ann then 1 else 0}|{if absd then 1 else 0}"
               let ps := qs.zipIdx.map fun ((dummy, e), k) =>
                 let m := select (Cfg.typed s dummy) (!dummy) ann e
                 let sp := select Cfg.plain (!dummy) t e
@@ -342,6 +343,6 @@ def answer (line : String) : String :=
               ";".intercalate (recs ++ [c] ++ ps)
           | _ => "bad-line-Q"
       | _ => "bad-line-T"
-  | _ => "bad-line"
+  | [] => "bad-line"
 
 def main : IO Unit := mainLoop answer
